@@ -373,9 +373,16 @@ KPaymentClose(S, a)    == Res(PaymentClose(S, BId(a.t, a.d, a.g, a.o, a.p)))
 \* a plain bank transfer to the escrow module account: the module account is a blocked address (app.BlockedAddrs)
 SendToEscrow(S, a) == Fail(S)
 
+(* Export every module's genesis and import it into a fresh application.  AS FOUND this is not the identity: the market  *)
+(* module exports only its parameters, the provider and audit modules export nothing, so orders, bids, leases, provider *)
+(* records and attestations are lost (escrow and deployment records survive).  Modelled as the code behaves; checked by          *)
+(* conformance only -- it is not a marketplace transaction and no listed property speaks about it.                     *)
+GenesisRoundTrip(S) == OK([S EXCEPT !.ord = <<>>, !.bid = <<>>, !.lease = <<>>, !.prov = <<>>, !.attest = <<>>])
+
 Handler(S, a) ==
   CASE a.act = "CreateDeployment"  -> CreateDeployment(S, a)
     [] a.act = "SendToEscrow"      -> SendToEscrow(S, a)
+    [] a.act = "GenesisRoundTrip"  -> GenesisRoundTrip(S)
     [] a.act = "DepositDeployment" -> DepositDeployment(S, a)
     [] a.act = "UpdateDeployment"  -> UpdateDeployment(S, a)
     [] a.act = "CloseDeployment"   -> CloseDeployment(S, a)
